@@ -73,6 +73,14 @@ def inputs(tier):
               corpus.cluster_desc(('ASP', 'GLU', 'LYS'), 'line', 3.0, 'deep'), corpus.cluster_desc(('GLU', 'GLU', 'HIS'), 'star', 3.0, 'mid')):
         for k in (2, 3):
             out.append(dict(src='repeat', d=d, k=k))
+    # several determinants of one group whose partners print the same label (two ions / ligand copies in one chain, residues that
+    # differ only in insertion code)
+    for ks in (('ASP', 'CA', 'CA'), ('GLU', 'ZN', 'MG'), ('ASP', 'ACT', 'ACT'), ('HIS', 'GLU', 'GLU'), ('GLU', 'PYR', 'PYR'), ('TYR', 'ASP', 'ASP'),
+               ('LYS', 'MAM', 'MAM'), ('CYS', 'LYS', 'LYS')):
+        for lv in (('deep',) if tier == 'quick' else ('mid', 'deep')):
+            out.append(dict(src='samelabel', d=corpus.cluster_desc(ks, 'star', 3.0, lv)))
+    # nothing left to titrate: a disulfide alone
+    out.append(dict(src='corpus', d=corpus.pair_desc('CYS', 'CYS', 2.03, 'exposed')))
     if tier == 'thorough':
         out += [dict(src='corpus', d=corpus.file_desc(k)) for k in ('3SGB', '1HPX', '4DFR')]
     return out
@@ -81,6 +89,9 @@ def inputs(tier):
 def build(inp, seed):
     if inp['src'] == 'corpus':
         return corpus.build(inp['d'], seed)
+    if inp['src'] == 'samelabel':
+        from . import c15
+        return c15.build(inp, seed)
     if inp['src'] == 'repeat':
         one = corpus.build(inp['d'], seed)
         items = []
@@ -126,6 +137,7 @@ def settings(s, rec0):
             k = g['key'].split(':')
             if (k[0], k[1]) not in rep:
                 rep.append((k[0], k[1]))
+    out.append(('titrate-only-nothing', ('-i', 'Q:9999')))      # the list names no residue of the structure: nothing titrates
     if len(rep) > 1:
         out.append(('titrate-only-first', ('-i', '%s:%s' % rep[0])))
         out.append(('titrate-only-odd', ('-i', ','.join('%s:%s' % r for r in rep[::2]))))
@@ -140,7 +152,7 @@ def plan(tier, seed):
     return dict(shards=shards, exhaustive=True,
                 rule=('inputs: docked pairs (6x10 kinds), clusters, 9 A cut-outs, windows starting with ASP/HIS/CYS, MTX/KNI cut-outs, a free '
                       'amino acid, MODEL/alt-loc layouts (partner chain present in all / later models only); settings: default, -d, first '
-                      'chain (once, twice, chains in reverse order, blank chain id selected with a space), two titrate-only lists; parameter files: all 8 toggles of %s under the default setting plus -d. non-trivial '
+                      'chain (once, twice, chains in reverse order, blank chain id selected with a space), two titrate-only lists and one that names nothing; parameter files: all 8 toggles of %s under the default setting plus -d. non-trivial '
                       '= distinct (input, setting, parameter file) whose result has at least one determinant') % (TOGGLES,),
                 bounds=dict(inputs=len(ins), parameter_files=8), samples=[ins[0], ins[-1]])
 
